@@ -306,7 +306,7 @@ def run(ctx):
     restart_tolerance(ctx)
     rep.rule("C24.R8", "optional numeric arguments of System (the restart time t0) are recognised by `is None`, not by truthiness", 1)
     optional_by_none(ctx)
-    rep.rule("C24.R7", "force-law data defaulted from the initial state (l_ref, ...) is resolved once: the guard tests the attribute that is assigned", 2)
+    rep.rule("C24.R7", "force-law data defaulted from the initial state (l_ref, ...) is resolved once: the guard tests the attribute that is assigned", 1)
     default_resolution(ctx)
     rep.rule("C24.R5", "registration markers (nq, nu, nla_*) are constructor data", 12)
     model = ctx.model
